@@ -31,7 +31,7 @@ UNITS = {
     'conv': {
         'extract': extract_conv, 'spec': 'contracts/conv.spec', 'prelude': 'contracts/conv_prelude.rs',
         # both outcomes of from_pos must be possible under the stand-ins' contracts
-        'reach': ('proof fn reach_probe(lm: &LineMap, p: Position, q: Position)\n    requires pos_ok(lm, p), !pos_ok(lm, q),\n{ assert(false); }\n'),
+        'reach': ('proof fn reach_probe(lm: &LineMap, p: Position, q: Position, vfs: &Vfs, u: &Url, w: &Url)\n    requires pos_ok(lm, p), !pos_ok(lm, q), vfs.wf(), vfs.known(u) is Some, vfs.known(w) is None, vfs.live(vfs.known(u)->Some_0),\n{ assert(false); }\n'),
         'canaries': [
             {'name': 'verus: column is not validated', 'file': 'crates/glas/src/convert.rs',
              'old': '        pos.character <= line_map.end_col_for_line(pos.line),', 'new': '        pos.character <= u32::MAX,'},
